@@ -1720,3 +1720,32 @@ mod tests {
         assert!(tracker.last_activity.is_empty());
     }
 }
+
+/// Verification hooks (feature `verif`).
+#[cfg(feature = "verif")]
+pub mod verif_hooks {
+    use super::*;
+
+    /// `true` if the protocol is told about the connection (first connection of the peer).
+    pub fn on_connection_established(
+        service: &mut TransportService,
+        peer: PeerId,
+        endpoint: Endpoint,
+        connection_id: ConnectionId,
+        handle: ConnectionHandle,
+    ) -> bool {
+        service.on_connection_established(peer, endpoint, connection_id, handle).is_some()
+    }
+
+    /// `true` if the protocol is told that the peer disconnected (last connection of the peer).
+    pub fn on_connection_closed(service: &mut TransportService, peer: PeerId, connection_id: ConnectionId) -> bool {
+        service.on_connection_closed(peer, connection_id).is_some()
+    }
+
+    /// (primary connection id, secondary connection id) the service tracks for `peer`.
+    pub fn connections_of(service: &TransportService, peer: &PeerId) -> Option<(ConnectionId, Option<ConnectionId>)> {
+        service.connections.get(peer).map(|context| {
+            (*context.primary.connection_id(), context.secondary.as_ref().map(|handle| *handle.connection_id()))
+        })
+    }
+}
